@@ -807,6 +807,16 @@ Theorem untrusted_recase e e' : recase e e' ->
   reported true roots (events funcs (pnorm e)) = reported true roots (events funcs (pnorm e')).
 Proof. exact (recase_gen roots (known funcs) true (known_lower funcs) e e'). Qed.
 
+(* after Check() the checker is back in its initial state (apart from the
+   errors Init() truncates): one checker object can be reused *)
+Theorem state_clean_after_check e :
+  let s := do_end (run true roots (events funcs e) st_init) in
+  s_chain s = chain_reset /\ s_safe s = 0.
+Proof.
+  cbn zeta. unfold events, ev. destruct (main_inv roots (known funcs) true e) as [H _].
+  rewrite (H st_init eq_refl). split; reflexivity.
+Qed.
+
 (* driven by VisitExprNode (expr_ast.go), as actionlint's own tests do *)
 Theorem visit_exact e : parser_normal e ->
   reports_equiv (reported true roots (visit_events e)) (spec_paths roots (fun _ => true) e).
